@@ -37,8 +37,11 @@ func c14Pool(seed int64, tier string) []c14val {
 		pool = append(pool, c14val{v, bridge.ToReal(v, va), ref.Describe(v), kind})
 	}
 	std := bridge.Variant{}
-	ints := []int64{0, 1, -1, 2, 3, 7, -7, 100, 1 << 31, -(1 << 31), 1<<53 - 1, -(1<<53 - 1), 1 << 52}
-	floats := []float64{0, math.Copysign(0, -1), 1, -1, 2, 0.5, 1.5, 2.0000000000000004, 1.9999999999999998, 3, 7, -7, 100, math.Inf(1), math.Inf(-1), 1e300, -1e300, 5e-324, float64(1 << 53), 9007199254740991, 4503599627370496.5, 1e-9}
+	ints := []int64{0, 1, -1, 2, 3, 7, -7, 100, 1 << 31, -(1 << 31), 1<<53 - 1, -(1<<53 - 1), 1 << 52, -2, -3, -100, -8}
+	// floats: both signs of zero, fractions on both sides of every small int (negative ones too: truncation
+	// and floor differ there), direct neighbours of ints, infinities, extremes, the 2^53 neighbourhood
+	floats := []float64{0, math.Copysign(0, -1), 1, -1, 2, 0.5, 1.5, 2.0000000000000004, 1.9999999999999998, 3, 7, -7, 100, math.Inf(1), math.Inf(-1), 1e300, -1e300, 5e-324, float64(1 << 53), 9007199254740991, 4503599627370496.5, 1e-9,
+		-0.5, -1.5, -2.5, -0.25, -1.0000000000000002, -0.9999999999999999, -2.0000000000000004, -1.9999999999999998, -6.5, -7.5, -99.5, -100.5, 2.5, 6.5, 99.5, -5e-324, -1e-9, -2, -3, -100, 9007199254740994, 9223372036854775807, -9223372036854775808, 1e19, -1e19}
 	strs := []string{"", "a", "b", "ab", "aa", "A", "a ", "é", "日本", "z", "10", "9", "\x00", "a\x00"}
 	for _, i := range ints {
 		add(i, std)
